@@ -59,7 +59,33 @@ SIMPLIFY = False
 TV_SAMPLES = {"quick": 1, "thorough": 1}
 
 
+class _SymbolicClock:
+    """time.perf_counter in symbolic runs: every reading is a fresh unknown, later than the previous one"""
+
+    def __init__(self):
+        self.last = None
+        self.n = 0
+
+    def __call__(self):
+        self.n += 1
+        t = Sc(z3.Real(f"wallclock!{self.n}"))
+        if self.last is not None:
+            CTX.add_path_assume((t > self.last + 1e-6).e)
+        else:
+            CTX.add_path_assume((t > 0).e)
+        self.last = t
+        return t
+
+
 def patch_spec(case):
+    if case.kind == "clock":
+        from types import SimpleNamespace
+
+        from . import C11
+
+        spec = C11.patch_spec(case)
+        spec["tdgl.solver.runner"]["time"] = SimpleNamespace(perf_counter=_SymbolicClock())
+        return spec
     return S.patch_spec(extra_modules=["tdgl.em", "tdgl.distance"])
 
 
@@ -75,6 +101,7 @@ def cases(tier, seed):
         Case("uninitialised-buffer:update", kind="uninit", seed=seed),
         Case("random-validation-times", kind="rng", seed=seed),
         Case("hash-order:terminal-currents", kind="hash", seed=seed),
+        Case("wall-clock:progress-reporting", kind="clock", seed=seed),
     ]
 
 
@@ -264,6 +291,42 @@ def body_race(H, case):
         else:
             same = bool(np.array_equal(a, b)) and not np.isnan(a).any()
         H.prove(f"{nm}: each output element is computed identically under a reversed schedule", same)
+
+
+# ---- (E) the wall clock ---------------------------------------------------------------------------
+def body_clock(H, case):
+    """progress reporting reads the wall clock: nothing it reads may reach the update function or a recorded
+    frame (real Runner with progress_interval > 0; symbolic runs: every clock reading is a fresh unknown and
+    no argument / frame may mention one; concrete runs: two runs under the real clock agree exactly)"""
+    from . import C11
+
+    fs = case.params.get("_fs")
+    if H.mode == "sym":
+        fs.files.clear(); fs.dirs.clear(); fs.dirs.add("/work"); fs.open_handles.clear(); fs.log.clear(); fs.tmp_counter = 0
+    N = 3
+    dts = [H.real(f"dt{i}", lo=0.5, hi=1.0) for i in range(N + 3)]
+    v0 = H.real("v0", lo=-1.0, hi=1.0)
+    T = H.real("T", lo=1.6, hi=1.9)
+    cfg = dict(k=2, probes=0, prog=1, explicit=False)
+    c1, f1 = C11.run_runner(H, case, cfg, N, T, dts, v0, "a", fs)
+    c2, f2 = C11.run_runner(H, case, cfg, N, T, dts, v0, "b", fs)
+    H.prove("the run makes updates and records frames", len(c1) >= 2 and len(f1) >= 2)
+
+    def mentions_clock(x):
+        return H.mode == "sym" and "wallclock!" in (str(Sc.of(x).re) if not isinstance(x, (int, float)) else "")
+
+    def same(a, b):
+        if H.mode == "sym":
+            return str(Sc.of(a).re) == str(Sc.of(b).re) if not (isinstance(a, (int, float)) and isinstance(b, (int, float))) else a == b
+        return bool(a == b)
+
+    for i, (a, b) in enumerate(zip(c1, c2)):
+        for nm, x, y in zip(("step", "time", "dt", "state"), a, b):
+            H.prove(f"update {i}: the {nm} argument does not depend on the wall clock", (not mentions_clock(x)) and same(x, y))
+    H.prove("both runs make the same number of updates and record the same steps", len(c1) == len(c2) and sorted(f1) == sorted(f2))
+    for s_ in sorted(set(f1) & set(f2)):
+        (t1, v1), (t2, v2) = f1[s_], f2[s_]
+        H.prove(f"frame of step {s_}: time and state do not depend on the wall clock", not mentions_clock(t1) and not mentions_clock(v1) and same(t1, t2) and same(v1, v2))
 
 
 # ---- (B) ---------------------------------------------------------------------------------------------
